@@ -383,6 +383,7 @@ type metrics struct {
 	maintenanceErrorsTotal                prometheus.Counter
 	matcherCompileIndexSilenceErrorsTotal prometheus.Counter
 	matcherCompileLoadSnapshotErrorsTotal prometheus.Counter
+	matcherCompileMergeErrorsTotal        prometheus.Counter
 }
 
 func newSilenceMetricByState(r prometheus.Registerer, s *Silences, st SilenceState) prometheus.GaugeFunc {
@@ -440,6 +441,7 @@ func newMetrics(r prometheus.Registerer, s *Silences) *metrics {
 	)
 	m.matcherCompileIndexSilenceErrorsTotal = matcherCompileErrorsTotal.WithLabelValues("index")
 	m.matcherCompileLoadSnapshotErrorsTotal = matcherCompileErrorsTotal.WithLabelValues("load_snapshot")
+	m.matcherCompileMergeErrorsTotal = matcherCompileErrorsTotal.WithLabelValues("merge")
 	m.queriesTotal = promauto.With(r).NewCounter(prometheus.CounterOpts{
 		Name: "alertmanager_silences_queries_total",
 		Help: "How many silence queries were received.",
@@ -1269,6 +1271,7 @@ func (s *Silences) loadSnapshot(r io.Reader) error {
 		if _, err := mi.add(e.Silence); err != nil {
 			s.metrics.matcherCompileLoadSnapshotErrorsTotal.Inc()
 			s.logger.Error("Failed to compile silence matchers during snapshot load", "silence_id", e.Silence.Id, "err", err)
+			delete(st, e.Silence.Id)
 		} else {
 			st[e.Silence.Id] = e
 
@@ -1323,6 +1326,14 @@ func (s *Silences) Merge(b []byte) error {
 	now := s.nowUTC()
 
 	for _, e := range st {
+		// Like loadSnapshot, do not admit a silence whose matchers do not
+		// compile: it can never match anything, and every query that scans
+		// it fails, which stops valid silences from muting alerts.
+		if _, err := (matcherIndex{}).add(e.Silence); err != nil {
+			s.metrics.matcherCompileMergeErrorsTotal.Inc()
+			s.logger.Error("Dropping silence received from the cluster: failed to compile silence matchers", "silence_id", e.Silence.Id, "err", err)
+			continue
+		}
 		merged, added := s.st.merge(e, now)
 		if merged {
 			if added {
